@@ -201,11 +201,7 @@ def subprocess_answers(items, seed):
 class Lane(c18.Lane):
     PROP = 'C19'
     PREFIX = 'C19'
-    THEOREMS = ['CG.C19.mediators_eq', 'CG.C19.mediators_error_iff', 'CG.C19.mediators_empty_when_reversed',
-                'CG.C19.instruments_ancestor', 'CG.C19.instruments_no_direct', 'CG.C19.instruments_ne_destination',
-                'CG.C19.instruments_empty_when_reversed', 'CG.C19.instruments_no_confounder',
-                'CG.C19.instruments_unrelated_to_confounders', 'CG.C19.instruments_error_iff',
-                'CG.C19.instruments_dsep']
+    THEOREMS = 'auto'
     AUDIT = 'CG/Audit/C19.lean'
     RULE = ('a case is one graph with all its ordered pairs; non-trivial when some pair has a non-empty instrument or '
             'mediator set, or raises; distinct by (name pool, edge list in insertion order, max_num_paths list)')
